@@ -28,6 +28,9 @@ MASTER_PARTS = [
     "fl = 0.5\n  .type = float(value_min=0, allow_none=False)\n",
     "pr = 1 2\n  .type = ints(size=2, allow_none_elements=True)\n",
     "fs = 1.5 2.5\n  .type = floats(size_max=3, value_max=10)\n",
+    # a scope with a non-zero expert level holding parameters without a level of their own (they inherit it in the tie-break of
+    # the argument interpreter), the same name at two depths
+    "adv\n  .expert_level = 2\n{\n  k = 1\n    .type = int\n  sub {\n    k = 2\n      .type = int\n    z = no\n      .type = bool\n  }\n}\n",
 ]
 SOURCE_PARTS = [
     "an = None\n", "fl = None\n", "pr = None 3\n", "fs = 1 2 3\n", "an = 7\n",
@@ -288,6 +291,18 @@ class Histories(Stream):
                 elif op == "result_edit":
                     r = safe(lambda: master.fetch(sources=last_fetch or sources[:1]))
                     if r[0] == "ok":
+                        # copy() of every object of a fetch result (templates included) prints and is flagged like the original
+                        def walk(sc):
+                            for o in sc.objects:
+                                yield o
+                                if o.is_scope:
+                                    yield from walk(o)
+                        for o in walk(r[1]):
+                            c = o.copy()
+                            if (c.is_template, c.is_disabled, c.as_str(attributes_level=3)) != (o.is_template, o.is_disabled, o.as_str(attributes_level=3)):
+                                problems.append("copy() of the fetch-result object %s differs from it (is_template %r -> %r)" % (
+                                    o.full_path(), o.is_template, c.is_template))
+                                break
                         for o in r[1].objects[:3]:
                             self.assign_fields(o, rr)
                 elif op == "include_scope":
